@@ -64,8 +64,12 @@ class Compiler:
                 if len(placeholders) != len(parameters):
                     raise ProgrammingError(
                         f'the query has {len(placeholders)} placeholders but {len(parameters)} parameters were passed')
-                for i, placeholder in enumerate(sorted(placeholders, key=lambda node: node.parseinfo.pos)):
-                    placeholder.name = i
+                # Bind the parameters to the placeholders in textual
+                # order. The AST is not modified to allow to execute
+                # the parsed statement again with other parameters.
+                self.parameters = {
+                    id(placeholder): parameters[i]
+                    for i, placeholder in enumerate(sorted(placeholders, key=lambda node: node.parseinfo.pos))}
             else:
                 raise ProgrammingError('positional and named parameters cannot be mixed')
 
@@ -630,6 +634,8 @@ class Compiler:
 
     @_compile.register
     def _placeholder(self, node: ast.Placeholder):
+        if not node.name:
+            return EvalConstant(self.parameters[id(node)])
         return EvalConstant(self.parameters[node.name])
 
     @_compile.register
